@@ -16,21 +16,25 @@ ASSUMPTIONS = ["allocation succeeds (C08)"]
 TRUSTED = ["Spec/Rfc8259.lean for the value of the unmodified document", "the generator's notion of 'admissible position' for each extension kind (tools/props/c16.py)"]
 MANIFEST = dict(
     text="Specification: Spec/Rfc8259X.lean - an RFC 8259 document in which comments (in every gap), trailing commas, single-quoted strings and member "
-         "names, raw control characters inside strings and member names, and literals with upper-case letters may occur any number of times at every position where they are syntactically possible (`XText`), "
-         "with `erase` = the original RFC 8259 text. Theorems (Props/C16.lean) on the byte-driven tokener model, by two inductions over that type, for "
-         "every document, every depth limit, no bound on size: `default_accepts_extensions` / `default_same_value_as_original` - default mode succeeds "
-         "with exactly the value of the original document, end position = length; `strict_rejects_extensions` - strict mode ends with an error status "
-         "(never success / continue), no value, no undefined step, as soon as at least one extension occurs anywhere; `plain_is_rfc8259`. The forms that "
-         "change a single token - superfluous leading zero, trailing bytes after the value (with and without "
-         "ALLOW_TRAILING_CHARS: accepted with the end of the value reported) - are per-state theorems for every tokener state of that shape and every "
-         "enclosing stack (`strict_control_in_string`, `strict_leading_zero_rejected`, `strict_trailing_rejected`, `trailing_accepted`, ...); trailing bytes are in addition "
-         "proved on whole documents (`trailing_bytes`: any RFC 8259 text followed by a non-space byte: STRICT fails with 'unexpected character', default and "
-         "STRICT|ALLOW_TRAILING_CHARS return the value and the end of the text). The "
-         "differential run inserts all eight forms at every admissible position of every generated document in three modes and compares implementation, "
-         "model and the specification's value of the base document.",
+         "names, raw control characters inside strings and member names, literals with upper-case letters, and numbers with superfluous leading zeros "
+         "and / or an exponent marker without digits (`XNum`) may occur any number of times at every position where they are syntactically possible "
+         "(`XText`), with `erase` = the original RFC 8259 text and `XDoc.denote` = the value default mode returns. Theorems (Props/C16.lean) on the "
+         "byte-driven tokener model, by two inductions over that type, for every document, every depth limit, no bound on size: "
+         "`default_accepts_extensions` - default mode succeeds with `XDoc.denote`, end position = length; `default_value_is_original` / "
+         "`default_same_value_as_original` - that value IS the value of the original document when no number carries a number extension; "
+         "`default_value_same_numbers` / `default_same_numbers_as_original` - with leading zeros and digit-less exponents it is the same value up to the "
+         "source text a double retains (`01.5` is the double 1.5 retaining \"01.5\"), unless a digit-less exponent turns an integer into a double (`1e`: "
+         "not value-neutral, stated); `strict_rejects_extensions` - strict mode ends with an error status (never success / continue), no value, no undefined "
+         "step, as soon as at least one of the seven forms occurs anywhere; `plain_is_rfc8259`; `extensions_reference` (both theorems outright for the "
+         "reference libc). Trailing bytes after the value: `trailing_bytes` on whole documents (any RFC 8259 text followed by a non-space byte: STRICT fails "
+         "with 'unexpected character', default and STRICT|ALLOW_TRAILING_CHARS return the value and the end of the text). Per-state theorems for every "
+         "tokener state of the shape and every enclosing stack (`strict_control_in_string`, `strict_leading_zero_rejected`, `strict_trailing_rejected`, "
+         "`trailing_accepted`, ...) remain. The differential run inserts all eight forms at every admissible position of every generated document in three "
+         "modes and compares implementation, model and the specification's value of the base document.",
     note="Trusted: Lean kernel + propext/Classical.choice/Quot.sound; Spec/Rfc8259.lean + Spec/Rfc8259X.lean as the reading of 'valid document with an "
-         "extension inserted'; hypothesis LibcSpec (as C01; proved for the reference conversions); harness/tok.c + Driver/Tok.lean. Digit-less exponents "
-         "are decided by the run only (strtod's consumed length).",
+         "extension inserted'; hypotheses LibcSpec (as C01) and LibcSpecX (strtod reads a number with superfluous leading zeros completely and to the value "
+         "of the number without them; it does not consume an exponent marker without digits) - both proved for the reference conversions (refLibc_ok, "
+         "refLibc_x) and compared with glibc by the run; harness/tok.c + Driver/Tok.lean.",
     technique="Lean 4 proof (two inductions over an extended-document datatype: default accepts with the original value, strict rejects) + exhaustive-position correspondence run",
     design="6/C16")
 
